@@ -136,7 +136,10 @@ Inductive op :=
 | ConnDefunct (c : nat)           (* Connection.defunct()/close() *)
 | SetKsRead                       (* _set_keyspace_for_all_conns: unlocked reads of is_shutdown, _connection *)
 | SetKsInc (c : nat)              (* Connection.set_keyspace_async `with self.lock` *)
-| SetSoe.                         (* ConnectionHeartbeat: owner.shutdown_on_error = True *)
+| SetSoe                          (* ConnectionHeartbeat: owner.shutdown_on_error = True *)
+| HbRead                          (* ConnectionHeartbeat.run: owner.get_connections() -- the pool's current connection, if any *)
+| QueryCheck                      (* ResponseFuture._query: unlocked read of pool.is_shutdown before borrowing *)
+| QuerySend (c : nat).            (* ResponseFuture._query: connection.send_msg refuses (ConnectionShutdown if dead, else ConnectionBusy) *)
 
 Definition is_cur (s : state) (c : nat) : bool := match cur s with Some x => Nat.eqb x c | None => false end.
 
@@ -244,6 +247,9 @@ Definition step (s : state) (o : op) : state * list out :=
   | SetKsInc c =>
       if valid s c && (c_inflight (getc s c) <? maxid s) then (updc s c k_take, [OBool true]) else (s, [OBool false])
   | SetSoe => (set_soe s true, [])
+  | QueryCheck => (s, [OBool (shut s)])
+  | HbRead => (s, match cur s with Some c => [OConn c; OBool (dead (getc s c))] | None => [ONone] end)
+  | QuerySend c => (s, [OBool (dead (getc s c))])
   end.
 
 Definition run (s : state) (ops : list op) : state := fold_left (fun st o => fst (step st o)) ops s.
@@ -291,6 +297,25 @@ Definition borrow_prog (fuel : nat) : prog :=
         | _ => borrow_loop fuel c end)
     | x => Ret x end).
 
+(* borrow_connection followed by the caller's continuation *)
+Fixpoint borrow_loop_k (fuel : nat) (c : nat) (k : out -> prog) : prog :=
+  Do (BorrowTry c) (fun r => match first r with
+    | OBool true => k (OConn c)
+    | _ => match fuel with
+           | O => k OErrBusy
+           | S f => Do (BorrowRetryGet c) (fun r2 => match first r2 with
+                      | OConn c2 => borrow_loop_k f c2 k
+                      | x => k x end)
+           end
+    end).
+
+Definition borrow_prog_k (fuel : nat) (k : out -> prog) : prog :=
+  Do GetConn (fun r => match first r with
+    | OConn c => Do (BorrowReadThr c) (fun r2 => match first r2 with
+        | OBool true => Do (BorrowCheckReplace c) (fun _ => borrow_loop_k fuel c k)
+        | _ => borrow_loop_k fuel c k end)
+    | x => k x end).
+
 Definition return_tail (c : nat) (down : bool) : prog :=
   Do (ReturnRead c) (fun r => match first r with
     | ORead true sg so _ =>
@@ -307,6 +332,37 @@ Definition return_prog (c : nat) (down : bool) : prog :=
 Definition orphan_prog (c : nat) (down : bool) : prog := Do (Orphan c) (fun _ => return_tail c down).
 Definition late_prog (c : nat) : prog := Do (LateDec c) (fun _ => Do Notify (fun _ => Do LateRecycle (fun _ => Ret ONone))).
 
+(* ResponseFuture._query whose send_msg is refused: ConnectionBusy -> re-queue the stream id under connection.lock, then
+   pool.return_connection; ConnectionShutdown (dead connection) -> pool.return_connection *)
+Definition query_busy_prog (fuel : nat) (down : bool) : prog :=
+  Do QueryCheck (fun r => match first r with
+    | OBool true => Ret ONone
+    | _ => borrow_prog_k fuel (fun x => match x with
+        | OConn c => Do (QuerySend c) (fun r2 => match first r2 with
+            | OBool true => return_prog c down
+            | _ => Do LateRecycle (fun _ => return_prog c down) end)
+        | _ => Ret ONone end)
+    end).
+
+(* HostConnection._set_keyspace_for_all_conns for the keyspace the connection already has: set_keyspace_async reserves an
+   in-flight slot and calls back at once; the pool's callback hands the slot back through return_connection *)
+Definition setks_prog (down : bool) : prog :=
+  Do SetKsRead (fun r => match first r with
+    | OConn c => Do (SetKsInc c) (fun r2 => match first r2 with
+        | OBool true => return_prog c down
+        | _ => Ret OWait end)
+    | _ => Ret ONone end).
+
+(* one pass of ConnectionHeartbeat.run over this pool, idle live connection, SUPPORTED answered: HeartbeatFuture reserves an
+   in-flight slot under connection.lock; after the answer the slot is given back under connection.lock and the pool is told
+   (return_connection(stream_was_orphaned=True): flags, trash check) *)
+Definition heartbeat_prog (down : bool) : prog :=
+  Do HbRead (fun r => match r with
+    | [OConn c; OBool false] => Do (SetKsInc c) (fun r2 => match first r2 with
+        | OBool true => Do (ReturnDec c) (fun _ => return_tail c down)
+        | _ => Ret OWait end)
+    | _ => Ret ONone end).
+
 Definition task_prog (ok : bool) : prog :=
   Do ReplaceCheck (fun r => match first r with
     | OBool true => Do (ReplaceConnect ok) (fun r2 => match first r2 with
@@ -318,7 +374,8 @@ Definition task_prog (ok : bool) : prog :=
 
 Inductive mop0 :=
 | MBorrow (fuel : nat) | MReturn (c : nat) (down : bool) | MOrphan (c : nat) (down : bool) | MLate (c : nat)
-| MDefunct (c : nat) | MTask (ok : bool) | MShutdown | MSetSoe | MReleased.
+| MDefunct (c : nat) | MTask (ok : bool) | MShutdown | MSetSoe | MReleased
+| MQueryBusy (fuel : nat) (down : bool) | MSetKs (down : bool) | MHeartbeat (down : bool).
 
 Definition prog_of (m : mop0) : prog :=
   match m with
@@ -331,6 +388,9 @@ Definition prog_of (m : mop0) : prog :=
   | MShutdown => shutdown_prog
   | MSetSoe => Do SetSoe (fun _ => Ret ONone)
   | MReleased => Do Notify (fun _ => Ret ONone)
+  | MQueryBusy f d => query_busy_prog f d
+  | MSetKs d => setks_prog d
+  | MHeartbeat d => heartbeat_prog d
   end.
 
 (* which steps start at an instrumented point of the real code (a lock acquisition, the factory call, the
@@ -338,7 +398,7 @@ Definition prog_of (m : mop0) : prog :=
    preceding interrupt slot *)
 Definition hooked (o : op) : bool :=
   match o with
-  | GetConn | ShutdownCloseMain | Orphan _ | ConnDefunct _ | SetSoe | SetKsRead | SetKsInc _ => false
+  | GetConn | ShutdownCloseMain | Orphan _ | ConnDefunct _ | SetSoe | SetKsRead | QueryCheck | HbRead => false
   | _ => true
   end.
 
